@@ -25,7 +25,8 @@ type mode struct {
 	sharding    string // "hash" | "range"
 	alter       bool   // ALTER MEASUREMENT ... SHARDKEY between batches
 	regexSource bool   // FROM /m.*/ over two measurements
-	cond        string // "" (no queries) | "and" | "or_keys" | "full"
+	cond        string // "" (no queries) | "and" | "or_keys" | "full" | "hint" | "window" (alterDur)
+	alterDur    bool   // ALTER RETENTION POLICY ... SHARD DURATION between batches (own generator: gen_alterdur_test.go)
 }
 
 type mstGen struct {
